@@ -129,6 +129,27 @@ func checkC19(ci any, info *CaseInfo) string {
 func drawC19(t *rapid.T) any {
 	c := &C19Case{Repeat: rapid.IntRange(1, 3).Draw(t, "repeat")}
 	ni := rapid.IntRange(1, 3).Draw(t, "nitems")
+	if rapid.Bool().Draw(t, "freshrec") {
+		// first use of a FRESH self-referential type under contention: some
+		// goroutines fold/unfold R itself, others *R, []R and a struct holding both
+		name := gomodel.RecName(rapid.IntRange(0, len(gomodel.RecFamily)-1).Draw(t, "recidx"))
+		r := gomodel.TypeDesc{Kind: "pool", Pool: name}
+		shapes := []gomodel.TypeDesc{
+			r,
+			{Kind: "ptr", Elem: &r},
+			{Kind: "slice", Elem: &r},
+			{Kind: "struct", Fields: []gomodel.FieldDesc{{Name: "P", Type: gomodel.TypeDesc{Kind: "ptr", Elem: &r}}, {Name: "S", Type: gomodel.TypeDesc{Kind: "slice", Elem: &r}}, {Name: "N", Type: gomodel.TypeDesc{Kind: "int"}}}},
+		}
+		vcfg := gomodel.ValCfg{Budget: 25, ValidUTF8: true, Finite: true, NoBigUint: true}
+		for i := range shapes {
+			typ, err := gomodel.Build(&shapes[i])
+			if err != nil {
+				t.Fatalf("harness: %v", err)
+			}
+			c.Items = append(c.Items, GoCase{Type: shapes[i], Val: gomodel.DrawValue(t, typ, vcfg)})
+		}
+		ni = 0
+	}
 	for i := 0; i < ni; i++ {
 		g := drawGoCase(t, gomodel.TypeCfg{Tags: true, Pool: true, InlineOnlyStruct: true, Recursive: true}, gomodel.ValCfg{Budget: 25, ValidUTF8: true, Finite: true, NoBigUint: true})
 		typ, _, _ := g.build()
@@ -151,7 +172,7 @@ func drawC19(t *rapid.T) any {
 		if rapid.IntRange(0, 3).Draw(t, "codecjob") == 3 {
 			c.Jobs = append(c.Jobs, C19Job{Item: rapid.IntRange(0, ns-1).Draw(t, "sitem"), Route: "codec:" + rapid.SampledFrom(formatNames).Draw(t, "cfmt")})
 		} else {
-			c.Jobs = append(c.Jobs, C19Job{Item: rapid.IntRange(0, ni-1).Draw(t, "item"), Route: rapid.SampledFrom(routes).Draw(t, "route")})
+			c.Jobs = append(c.Jobs, C19Job{Item: rapid.IntRange(0, len(c.Items)-1).Draw(t, "item"), Route: rapid.SampledFrom(routes).Draw(t, "route")})
 		}
 	}
 	return c
@@ -160,7 +181,7 @@ func drawC19(t *rapid.T) any {
 func init() {
 	register(&Property{
 		ID:            "C19",
-		Rule:          "programs of G goroutines (quick: 2..8, thorough: 2..16) released by a barrier, each running its own pipeline — Fold -> Unfold directly or through the json/ubjson/cborl encoder and parser, or encoder -> parser over a shared event stream — 1..3 times on its OWN instances over SHARED input values and SHARED freshly generated reflect.StructOf types (first use under contention) plus pool types incl. the self-referential ones; the binary is built with -race (GORACE=halt_on_error): any race report, 'concurrent map' fatal error or crash is a violation; differential: every goroutine's outcome and value equal those of the same job run alone afterwards. Schedules are sampled by the Go scheduler (GOMAXPROCS 4, varied in the thorough tier), not enumerated. non-trivial = at least two goroutines share an item (type or stream) and route; distinct by case hash",
+		Rule:          "programs of G goroutines (quick: 2..8, thorough: 2..16) released by a barrier, each running its own pipeline — Fold -> Unfold directly or through the json/ubjson/cborl encoder and parser, or encoder -> parser over a shared event stream — 1..3 times on its OWN instances over SHARED input values and SHARED freshly generated reflect.StructOf types (first use under contention) plus pool types incl. the self-referential ones; half of the programs take a FRESH member of a family of 144 self-referential generic types and let the goroutines use R, *R, []R and struct{P *R; S []R} at the same time (first use of a recursive type under contention); the binary is built with -race (GORACE=halt_on_error): any race report, 'concurrent map' fatal error or crash is a violation; differential: every goroutine's outcome and value equal those of the same job run alone afterwards. Schedules are sampled by the Go scheduler (GOMAXPROCS 4, varied in the thorough tier), not enumerated. non-trivial = at least two goroutines share an item (type or stream) and route; distinct by case hash",
 		New:           func() any { return &C19Case{} },
 		Draw:          drawC19,
 		Check:         checkC19,
